@@ -133,6 +133,9 @@ package router
 
 //@ func (b *broker) syncPubMeta
 //@   inline
+//@   nosweep
+
+//@ pred metaEventFor(e *wamp.Event, ms *subscription, pubID wamp.ID, sendTopic bool, topic wamp.URI) = e != nil && e.Subscription == ms.id && e.Publication == pubID && e.Details != nil && (sendTopic ==> "topic" in e.Details && e.Details["topic"] == box(topic)) && (!sendTopic ==> !("topic" in e.Details))
 
 //@ func (b *broker) syncPubSubMeta
 //@   nonblocking
@@ -140,6 +143,14 @@ package router
 //@   props C18
 //@   requires brokerInv(b)
 //@   modifies ghost sendcount
+//@   callsite trySend : [meta-event-to-a-subscriber-other-than-the-causing-session] arg1 in metaSub.subscribers && arg1.ID != subSessID
+//@   callsite trySend : [meta-event-for-that-subscription] is(arg2, *wamp.Event) && metaEventFor(arg2.(*wamp.Event), metaSub, pubID, sendTopic, metaTopic)
+
+//@ closure (b *broker) syncPubSubMeta 1
+//@   inline
+//@   nosweep
+//@   loop range metaSub.subscribers
+//@     invariant [shared-event-is-for-this-subscription] event == nil || metaEventFor(event, metaSub, pubID, sendTopic, metaTopic)
 
 //@ func (b *broker) syncPubSubCreateMeta
 //@   nonblocking
@@ -147,6 +158,14 @@ package router
 //@   props C18
 //@   requires brokerInv(b) && sub != nil
 //@   modifies ghost sendcount
+//@   callsite trySend : [meta-event-to-a-subscriber-other-than-the-causing-session] arg1 in metaSub.subscribers && arg1.ID != subSessID
+//@   callsite trySend : [meta-event-for-that-subscription] is(arg2, *wamp.Event) && metaEventFor(arg2.(*wamp.Event), metaSub, pubID, sendTopic, wamp.MetaEventSubOnCreate)
+
+//@ closure (b *broker) syncPubSubCreateMeta 1
+//@   inline
+//@   nosweep
+//@   loop range metaSub.subscribers
+//@     invariant [shared-event-is-for-this-subscription] event == nil || metaEventFor(event, metaSub, pubID, sendTopic, wamp.MetaEventSubOnCreate)
 
 // ---------------------------------------------------------------------------
 // Broker: session index and ownership
@@ -889,7 +908,9 @@ package router
 //@ closure (d *dealer) cancel 1
 //@   on dealer
 //@   props C13
-//@   captures caller != nil && !isnil(caller.Peer) && msg != nil
+//@   captures [caller] caller != nil
+//@   captures [peer] !isnil(caller.Peer)
+//@   captures [msg] msg != nil
 //@   requires dealerNN(d) && callsInv(d)
 //@   callsite syncCancel : [pass-through] arg0 == d && arg1 == caller && arg2 == msg && arg3 == mode && arg4 == wamp.ErrCanceled && len(arg5) == 0
 
@@ -939,7 +960,9 @@ package router
 //@   dyncalls-pure
 //@   on dealer
 //@   props C13 C02
-//@   captures caller != nil && !isnil(caller.Peer) && msg != nil
+//@   captures [caller] caller != nil
+//@   captures [peer] !isnil(caller.Peer)
+//@   captures [msg] msg != nil
 //@   requires dealerNN(d) && callsInv(d)
 //@   callsite syncCancel : [timeout-is-killnowait-with-timeout-error] arg0 == d && arg1 == caller && arg2.Request == msg.Request && arg3 == wamp.CancelModeKillNoWait && arg4 == wamp.ErrTimeout && len(arg5) == 1
 
@@ -1172,3 +1195,73 @@ package router
 //@   requires dealerInv(d)
 //@   returnsite : [count-is-the-number-of-callees] regID in d.registrations ==> count == len(d.registrations[regID].callees)
 //@   returnsite : [unknown-registration-flagged] !(regID in d.registrations) ==> !ok
+
+// ---------------------------------------------------------------------------
+// Realm plumbing needed by the safety sweep (C04)
+
+//@ fieldinv realm.metaPeer : !isnil(v)
+//@ fieldinv realm.metaSess : v != nil
+//@ mapinv map[wamp.ID]func(*wamp.Invocation) wamp.Message : v != nil
+
+// Built per call: a GOODBYE handed to a session of one realm is never an
+// object that another realm can see or change.
+//@ func makeGoodbye
+//@   props C04 C11
+//@   modifies nothing
+//@   ensures [goodbye-with-details] result != nil && fresh(result) && result.Details != nil && fresh(result.Details)
+
+//@ func makeError
+//@   props C04
+//@   modifies nothing
+//@   ensures [error-message] result != nil && fresh(result)
+
+// Meta procedures are registered while the realm is being built; a failure to
+// register is a deliberate start-up panic, not something a client can cause.
+//@ func (r *realm) registerMetaProcedure
+//@   props C04
+//@   requires r != nil && f != nil
+//@   maypanic
+//@   recvsite wamp.Message : [meta-client-registration-answers] assume isnil(m) || (is(m, *wamp.Registered) ==> m.(*wamp.Registered) != nil) && (is(m, *wamp.Error) ==> m.(*wamp.Error) != nil)
+
+// The meta client only ever receives INVOCATIONs of the meta procedures it
+// registered and the realm's final GOODBYE: the meta session announces no
+// callee features (no INTERRUPT), never calls, subscribes or asks for
+// acknowledgement.
+//@ func (r *realm) metaProcedureHandler
+//@   props C04
+//@   requires r != nil
+//@   recvsite wamp.Message : [meta-client-receives-invocations-or-goodbye] assume (is(m, *wamp.Invocation) && m.(*wamp.Invocation) != nil) || is(m, *wamp.Goodbye)
+
+// Sessions stored in the realm's client table were attached by AttachClient,
+// which gives each of them a details dictionary before handing it over.
+//@ func (r *realm) modifySessionDetails
+//@   props C04
+//@   requires r != nil && sess != nil
+//@   assume [attached-sessions-have-details] sess.Details != nil
+
+//@ func (r *router) Attach
+//@   props C04
+//@   requires r != nil && !isnil(client)
+
+//@ func (r *router) AddRealm
+//@   props C04
+//@   requires r != nil && config != nil
+
+//@ closure (r *router) AddRealm 1
+//@   on router
+//@   props C04
+//@   captures r != nil && config != nil
+
+//@ closure (r *realm) createMetaSession 1
+//@   props C04
+//@   captures r != nil
+
+//@ closure (d *dealer) syncCall 1
+//@   props C04 C13
+//@   captures d != nil && !isnil(timerCtx) && caller != nil && msg != nil
+
+//@ closure (d *dealer) regMatch 1
+//@   on dealer
+//@   props C18 C04
+//@   requires dealerInv(d)
+//@   sendsite answer wamp.ID : [id-of-the-best-match-or-zero] m == 0 || m in d.registrations
